@@ -697,6 +697,11 @@ class UserTrackingManager:
         """Gets or creates a tracked user object"""
         if user.name in self._tracked_users:
             tracked_user = self._tracked_users[user.name]
+            # The user objects are reset when the server connection closes:
+            # keep a reference to the object that is currently handed out,
+            # otherwise the updates for this user are applied to an object that
+            # is dropped right away
+            tracked_user.user = user
 
         else:
             tracked_user = TrackedUser(user)
